@@ -317,10 +317,12 @@ def touchedTick (t : ImplTick) : List Nat :=
     | .k _ (some cg) true _ => some cg
     | _ => none
 
-/-- the ranking hint for tick `i`: what was touched on this tick, then on the later ticks (the order of a serialised stack shows
-    only when it is resumed), then earlier -/
+/-- the ranking hint for tick `i`: what was touched on this tick and on the following ticks up to the end of the kill cycle
+    (the order of a serialised stack shows only when it is resumed); later cycles rank afresh -/
 def touchedOf (ticks : List ImplTick) (i : Nat) : List Nat :=
-  (((ticks.drop i).flatMap touchedTick) ++ ((ticks.take i).flatMap touchedTick)).eraseDups
+  let rest := ticks.drop i
+  let n := (rest.findIdx? (fun t => t.ret != "ASYNC_PAUSED")).getD rest.length
+  ((rest.take (n + 1)).flatMap touchedTick).eraseDups
 
 /-- the clock reading of every `pastPrekillHookTimeout` call, in call order.  A fire is directly preceded by one (the stamp of
     the fire); so is an attempt that no fire of its own and no resume precedes (its first event's stamp); an unfinished poll at the
@@ -589,11 +591,18 @@ def handle (j : Json) : Json := Id.run do
   let viol := hs.viol.eraseDups
   -- accepts: run the model
   let env := envOf impls
-  let runModel (rev : Bool) : List TickOut × Bool :=
+  -- cgroups of tick i that are gone (removed / re-created) on some later tick: where the trace leaves the order of a
+  -- serialised stack open (the loop stops at the first entry it cannot deserialise), such a cgroup may have been next
+  let goneIds (i : Nat) : List Nat :=
+    let later := (trees.drop (i + 1)).map fun ms => ms.map (·.id)
+    ((trees.getD i []).map (·.id)).filter fun id => later.any fun ids => !ids.contains id
+  let runModel (mode : Nat) : List TickOut × Bool :=
+    let rev := mode % 2 == 1
     let tins : List TickIn := ((tins0.zip ((ticks.zip impls))).zipIdx).map fun (((top, _, roots), (tkS, im)), i) =>
       let pre := jnat tkS "pre_adv_ms" * 1000000
+      let hint := if mode ≥ 2 then (touchedOf impls i ++ goneIds i).eraseDups else touchedOf impls i
       { top := top, roots := roots, freshDl := timeoutNs.map fun t => im.now0 - pre + t,
-        rank := rankHint kcfg (touchedOf impls i) rev }
+        rank := rankHint kcfg hint rev }
     let ok := (tins0.zip tins).all fun ((_, views, roots), ti) =>
       rankOKb ti.rank roots && views.all (fun v => rankOKb ti.rank v.children)
     (runHistory hcfg none none tins env, ok)
@@ -601,10 +610,13 @@ def handle (j : Json) : Json := Id.run do
     outs.length == impls.length &&
     (outs.zip impls).all fun (o, im) =>
       sameEvents (ofModel o.evs) (ofImpl im) && some o.ret == retOfStr im.ret && o.dl == im.deadline
-  let (a, aok) := runModel false
-  let (outs, rankOk) := if cmp a then (a, aok) else
-    let (b, bok) := runModel true
-    if cmp b then (b, bok) else (a, aok)
+  let first := runModel 0
+  let (outs, rankOk) := Id.run do
+    if cmp first.1 then return first
+    for mode in [1, 2, 3] do
+      let r := runModel mode
+      if cmp r.1 then return r
+    return first
   let mut saved := false
   for ((o, im), i) in (outs.zip impls).zipIdx do
     let same := sameEvents (ofModel o.evs) (ofImpl im) && some o.ret == retOfStr im.ret && o.dl == im.deadline &&
